@@ -312,12 +312,13 @@ prop('C02',
          dict(harness='c02_noise_stream', name='c02_noise_stream_frames', covers=['c02.read', 'c02.delivered'], min_paths=50, split=4,
               params={'quick': {'io_budget': 1, 'big_frames': 1}, 'thorough': {'io_budget': 3, 'big_frames': 1}}, conform={'quick': 20, 'thorough': 100}, nvals=20,
               time_cap={'quick': 1500, 'thorough': 14000}),
+         dict(harness='c02_noise_attacks', covers=['c02a.data', 'c02a.error'], min_paths=8, split=0, conform={'quick': 50, 'thorough': 200}, nvals=4),
      ],
      assumptions=['cipher stub: ciphertext = plaintext || 16-byte tag (direction, nonce); snow length limit 65535; tag and nonce are checked on decryption; '
                   'integrity of the payload bytes against tampering is the AEAD\'s guarantee and not modelled',
                   'the two cipher states come from a completed handshake (natively: a real in-memory Noise XX handshake)'],
      bounds={'write sizes': '1, 2, 300 (+0/1/300) and 65519, 65520, 65521, 65536, 131040 (+0/1)', 'reader buffers': '1, 7, 300 / 16384, 65520, 70000',
              'read-ahead frames': '1..2', 'write buffer frames': '1..2', 'carrier': 'io_budget scripted answers (Pending / 1 byte / all), then ideal'},
-     outside=['tamper / replay / drop / reorder detection (AEAD + nonce: only the length/tag/nonce part is in the stub)', 'the handshake itself (C01)',
+     outside=['detection of altered *payload* bytes (AEAD guarantee; the attack unit damages only length prefixes and tags, truncates, drops, replays, reorders)', 'the handshake itself (C01)',
               'payload contents other than the fixed position pattern'],
      )
